@@ -22,9 +22,16 @@ CODES = {
     5: ("oracle", "irresolute: the returned list is not the set of all welfare-maximal allocations, each once"),
     6: ("model", "PRIMAL_DUAL: the selected set differs from the Gallina model of primal_dual_branch"),
     7: ("oracle", "resolute call did not return exactly one allocation"),
+    90: ("oracle", "history: the FIRST call on a satisfaction profile object returned a non-optimal / invalid allocation"),
+    91: ("oracle", "history: repeating the identical call on the same objects changed the welfare / the selected set"),
+    92: ("model", "history: totals of the satisfaction profile extended in place differ from a freshly built one"),
     core.RAISED: ("oracle", "the call raised / the interpreter died outside the solver"),
 }
-RULE = ("elections with 1..8 projects (..10 thorough), 0..5 voters, integer and fractional costs from tie-rich pools "
+RULE = ("single calls and (every 5th case) HISTORIES: call, extend profile + satisfaction profile in place (append / "
+        "extend_from_profile, Profile and MultiProfile), call twice more on the same objects -- the second call is judged "
+        "on the final election with totals of a freshly built satisfaction profile, the first on the election as it was, "
+        "the third must repeat the second; every 10th case a near-tie knapsack with 1e9..1e17-sized integer (and mixed "
+        "int/mpq) costs and profits; otherwise elections with 1..8 projects (..10 thorough), 0..5 voters, integer and fractional costs from tie-rich pools "
         "(zeros, equal costs, halves/thirds), budgets on subset sums/boundaries, approval, cardinal, cumulative and "
         "ordinal ballots with every shipped exact-valued additive measure, Profile and MultiProfile, feasible initial "
         "allocations, PRIMAL_DUAL / ILP resolute / ILP irresolute; non-trivial = distinct case with >=2 feasible "
@@ -35,6 +42,8 @@ ASSUMPTIONS = [
     "CBC (ILP algorithm and the normalisers of Relative_Cost_Sat / Additive_Cardinal_Relative_Sat): every optimize() "
     "answer, including those inside the integer-cut loop, is re-validated exactly; faults and crashes are discarded",
     "float-valued additive measures (Additive_Cost_Sqrt_Sat, Additive_Cost_Log_Sat) are outside the property",
+    "histories: the final election's totals come from a freshly built satisfaction profile; only ballot-local measures "
+    "are used there, so in-place extension and rebuilding must agree (checked, code 92)",
 ]
 TRUSTED = ["Model/MaxWelfare.v mirrors pabutools/rules/maxwelfare.py (modelled, not verified)"]
 EXPLANATION = ("Theorems (unbounded, Props/C04.v, all DESIGN M theorems proved): the brute-force oracle is the true "
@@ -184,6 +193,40 @@ def _subset_sum(rng, vals):
     return sum(rng.sample(vals, k), Fraction(0))
 
 
+def _draw_ballot(rng, kind, n, prev):
+    style = rng.randrange(6)
+    if style == 0:
+        appr = []
+    elif style == 1:
+        appr = list(range(n))
+    elif style == 2 and prev:
+        appr = list(rng.choice(prev)) if kind in ("approval", "ordinal") else [int(k) for k in rng.choice(prev)]
+    else:
+        appr = [j for j in range(n) if rng.random() < 0.5]
+    if kind == "approval":
+        return sorted(appr)
+    if kind == "ordinal":
+        appr = list(appr)
+        rng.shuffle(appr)
+        return appr
+    if kind == "cardinal":
+        return {str(j): pb.qs(rng.choice([0, 1, 1, 2, 3, Fraction(1, 2), Fraction(2, 3)])) for j in appr}
+    # cumulative: scores sum to at most 1
+    if appr:
+        w = [rng.randrange(0, 4) for _ in appr]
+        t = sum(w) or 1
+        return {str(j): pb.qs(Fraction(x, t)) for j, x in zip(appr, w)}
+    return {}
+
+
+# measures whose per-project value depends on the ballot and the instance only (not on the other voters, no
+# solver): for these a satisfaction profile extended in place and one rebuilt from the extended profile agree
+HIST_SATS = {"approval": ["Cardinality_Sat", "Cost_Sat", "Relative_Cardinality_Sat", "Relative_Cost_Approx_Normaliser_Sat"],
+             "cardinal": ["Additive_Cardinal_Sat", "Cardinality_Sat", "Cost_Sat"],
+             "cumulative": ["Additive_Cardinal_Sat", "Cardinality_Sat", "Cost_Sat"],
+             "ordinal": ["Additive_Borda_Sat", "Cardinality_Sat", "Cost_Sat"]}
+
+
 def gen(rng, i, tier):
     nmax = 8 if tier == "quick" else 10
     n = rng.choice([1, 2, 3, 3, 4, 4, 5, 5, 6, 6, 7, nmax, nmax])
@@ -194,6 +237,24 @@ def gen(rng, i, tier):
     sat = rng.choice({"approval": APPROVAL_SATS, "cardinal": CARDINAL_SATS, "cumulative": CARDINAL_SATS,
                       "ordinal": ORDINAL_SATS}[kind])
     hard = i % 4 == 3
+    near = i % 10 == 6       # near-tie / large-number stream (PRIMAL_DUAL only: CBC works in floats)
+    hist = i % 5 == 4        # history stream: the same satisfaction profile object is extended and re-used
+    if near:
+        hard = False
+        algo = 0
+        n = rng.randrange(3, nmax + 1)
+        big = 10 ** rng.choice([9, 12, 15, 15, 17, 17, 17])
+        mixed = rng.random() < 0.5
+        # weights = one large common part + small perturbations, so efficiencies agree to ~1e-9..1e-17 relative;
+        # in the mixed variant some costs are mpq (thirds/sevenths) next to Python ints
+        costs = []
+        for _ in range(n):
+            c = Fraction(big * rng.choice([1, 1, 2, 3]) + rng.randrange(-3, 4))
+            if mixed and rng.random() < 0.4:
+                c += Fraction(rng.randrange(1, 7), rng.choice([3, 7]))
+            costs.append(c)
+        kind, sat = rng.choice([("cardinal", "Additive_Cardinal_Sat"), ("cardinal", "Additive_Cardinal_Sat"),
+                                ("approval", "Cost_Sat"), ("approval", "Cardinality_Sat")])
     if hard:
         # knapsacks whose profits are not correlated with the costs: the search improves its incumbent several
         # times and through both branches, which is what exercises a_star/b_star/x and the reconstruction loop
@@ -222,6 +283,20 @@ def gen(rng, i, tier):
         b = Fraction(1)
     nv = rng.choice([0, 1, 2, 3, 3, 4, 5])
     ballots = []
+    if near:
+        nv = 0
+        if kind == "cardinal":
+            pbig = 10 ** rng.choice([9, 12, 15, 15, 17, 17, 17])
+            for _ in range(rng.choice([1, 1, 2])):
+                ballots.append({str(j): pb.qs(max(1, int((costs[j] + big // 2) // big)) * pbig + rng.randrange(-3, 4))
+                                for j in range(n)})
+        else:
+            for _ in range(rng.choice([1, 2, 3])):
+                ballots.append(sorted(j for j in range(n) if rng.random() < 0.8))
+        k = rng.randrange(1, n + 1)
+        b = sum(rng.sample(costs, k), Fraction(0)) + rng.choice([0, 0, 1, -1, Fraction(1, 3)])
+        if b <= 0:
+            b = costs[0]
     if hard:
         sden = rng.choice([1, 1, 2, 3])
         for _ in range(rng.choice([1, 1, 2, 3])):
@@ -230,30 +305,21 @@ def gen(rng, i, tier):
         if rng.random() < 0.5:
             b = tot * Fraction(rng.randrange(2, 7), 8)
     for _ in range(nv):
-        style = rng.randrange(6)
-        if style == 0:
-            appr = []
-        elif style == 1:
-            appr = list(range(n))
-        elif style == 2 and ballots:
-            appr = list(rng.choice(ballots)) if kind in ("approval", "ordinal") else [int(k) for k in rng.choice(ballots)]
-        else:
-            appr = [j for j in range(n) if rng.random() < 0.5]
-        if kind == "approval":
-            ballots.append(sorted(appr))
-        elif kind == "ordinal":
-            appr = list(appr)
-            rng.shuffle(appr)
-            ballots.append(appr)
-        elif kind == "cardinal":
-            ballots.append({str(j): pb.qs(rng.choice([0, 1, 1, 2, 3, Fraction(1, 2), Fraction(2, 3)])) for j in appr})
-        else:  # cumulative: scores sum to at most 1
-            if appr:
-                w = [rng.randrange(0, 4) for _ in appr]
-                s = sum(w) or 1
-                ballots.append({str(j): pb.qs(Fraction(x, s)) for j, x in zip(appr, w)})
-            else:
-                ballots.append({})
+        ballots.append(_draw_ballot(rng, kind, n, ballots))
+    late, hmode = None, None
+    if hist and not near:
+        if sat not in HIST_SATS[kind]:
+            sat = "Additive_Cardinal_Sat" if hard else rng.choice(HIST_SATS[kind])
+        # late voters, usually several copies of few ballots so that the totals (and the optimum) really move
+        late = []
+        for _ in range(rng.choice([1, 1, 2, 3])):
+            bl = _draw_ballot(rng, kind, n, ballots + late)
+            if hard:
+                bl = {str(j): pb.qs(Fraction(rng.randrange(0, 10))) for j in range(n) if rng.random() < 0.6}
+            late += [bl] * rng.choice([1, 2, 3, 5])
+        hmode = rng.choice(["append", "extend"])
+        if rng.random() < 0.3:
+            ballots = []          # first call on an empty satisfaction profile
     if sat == "Relative_Cost_Sat":
         # its normaliser solves a knapsack over the ballot: an all-zero row aborts CBC (excluded by the property)
         posj = [j for j in range(n) if costs[j] > 0]
@@ -280,10 +346,15 @@ def gen(rng, i, tier):
         algo = 1        # nobody votes: every feasible subset is optimal (up to 2^n solver calls) -- keep those small
     order = list(range(n))
     rng.shuffle(order)
-    return {"costs": [pb.qs(c) for c in costs], "budget": pb.qs(b), "kind": kind, "sat": sat, "ballots": ballots,
+    case = {"costs": [pb.qs(c) for c in costs], "budget": pb.qs(b), "kind": kind, "sat": sat, "ballots": ballots,
             "multi": rng.random() < 0.4, "init": init, "algo": algo, "order": order,
             "via": rng.choice(["class", "profile"]) if sat not in SOLVER_SATS else "profile",
             "solver": algo != 0 or sat in SOLVER_SATS}
+    if late is not None:
+        case.update(late=late, hmode=hmode, via="profile")
+    if near:
+        case["near"] = True
+    return case
 
 
 def impl(case):
@@ -300,29 +371,89 @@ def impl(case):
         install_guard()
         GUARD.update(calls=0, faults=0, last_fault=None)
     out = {}
+    algo = case["algo"]
+    init = [projs[j] for j in case["init"]]
+
+    def call(sat_profile, via):
+        kw = {"sat_profile": sat_profile} if via == "profile" else {"sat_class": sat_class}
+        res = max_additive_utilitarian_welfare(
+            inst, prof, resoluteness=(algo != 2), initial_budget_allocation=list(init),
+            inner_algo=MaxAddUtilWelfareAlgo.PRIMAL_DUAL if algo == 0 else MaxAddUtilWelfareAlgo.ILP_SOLVER, **kw)
+        return [pb.ranks(a) for a in res] if algo == 2 else [pb.ranks(res)]
+
+    def totals(sat_profile):
+        return [core.qj(sat_profile.total_satisfaction_project(projs[j])) for j in range(n)]
+
     try:
         sp = prof.as_sat_profile(sat_class)
-        out["score"] = [core.qj(sp.total_satisfaction_project(projs[j])) for j in range(n)]
-        out["enum"] = pb.ranks(list(inst))
-        init = [projs[j] for j in case["init"]]
-        algo = case["algo"]
-        kw = {"sat_profile": sp} if case["via"] == "profile" else {"sat_class": sat_class}
-        res = max_additive_utilitarian_welfare(
-            inst, prof, resoluteness=(algo != 2), initial_budget_allocation=init,
-            inner_algo=MaxAddUtilWelfareAlgo.PRIMAL_DUAL if algo == 0 else MaxAddUtilWelfareAlgo.ILP_SOLVER, **kw)
+        if case.get("late") is None:
+            out["score"] = totals(sp)
+            out["enum"] = pb.ranks(list(inst))
+            out["out"] = call(sp, case["via"])
+        else:
+            # HISTORY: call 1, extend profile and satisfaction profile IN PLACE, call 2 and 3 on the same objects
+            out["score1"] = totals(sp)
+            out["out1"] = call(sp, "profile")
+            late_prof = pb.make_profile(case["kind"], inst, projs, case["late"], False)
+            if case["hmode"] == "append":
+                for bl in late_prof:
+                    b2 = bl.frozen() if case["multi"] else bl
+                    prof.append(b2)
+                    sp.append(sat_class(inst, prof, b2))
+            else:
+                if case["multi"]:
+                    prof.extend(late_prof)
+                else:
+                    prof += late_prof
+                sp.extend_from_profile(late_prof, sat_class)
+            out["enum"] = pb.ranks(list(inst))
+            out["out"] = call(sp, "profile")
+            out["out_again"] = call(sp, "profile")
+            out["score_inplace"] = totals(sp)
+            out["score"] = totals(prof.as_sat_profile(sat_class))      # FRESH satisfaction profile of the final election
     except SolverFault as e:
         out["solver_fault"] = str(e)
         return out
-    if algo == 2:
-        out["out"] = [pb.ranks(a) for a in res]
-    else:
-        out["out"] = [pb.ranks(res)]
     if case.get("solver"):
         out["solver_calls"] = GUARD["calls"]
         if GUARD["faults"]:
             out["solver_fault"] = GUARD["last_fault"]
     out["t"] = round(time.time() - t0, 3)
     return out
+
+
+HIST_FIRST, HIST_REPEAT, HIST_TOTALS = 90, 91, 92
+
+
+def _hist_fail(case, o):
+    """python-side judgement of the parts of a history the case file does not carry: call 1 against the election as
+    it was then, the repeated call 3 against call 2, in-place totals against a freshly built satisfaction profile"""
+    o1 = {"out": o["out1"], "score": o["score1"]}
+    code = py_oracle(case, o1)
+    if code:
+        return HIST_FIRST
+    sc = [pb.F(x) for x in o["score"]]
+    wel = lambda W: sum((sc[j] for j in W), Fraction(0))
+    if case["algo"] == 2:
+        if sorted(sorted(W) for W in o["out"]) != sorted(sorted(W) for W in o["out_again"]):
+            return HIST_REPEAT
+    elif len(o["out_again"]) != 1 or len(o["out"]) != 1 or wel(o["out"][0]) != wel(o["out_again"][0]) or (
+            case["algo"] == 0 and sorted(o["out"][0]) != sorted(o["out_again"][0])):
+        return HIST_REPEAT
+    if o["score_inplace"] != o["score"]:
+        return HIST_TOTALS
+    return 0
+
+
+def post(cases, obs):
+    cases, obs = core.default_post(cases, obs)
+    for c, o in zip(cases, obs):
+        if isinstance(o, dict) and c.get("late") is not None and "out_again" in o and not o.get("discard") \
+                and "py_fail" not in o:
+            code = _hist_fail(c, o)
+            if code:
+                o["py_fail"] = code
+    return cases, obs
 
 
 def coq_case(case, o):
@@ -363,7 +494,9 @@ def stats(cases, obs):
          "fractional_scores": 0, "zero_cost_project": 0, "zero_cost_with_supporters": 0,
          "zero_cost_without_supporters": 0, "zero_profit_project": 0, "nonempty_init": 0, "multiprofile": 0,
          "tied_optima>=2": 0, "greedy_prefix_not_optimal": 0, "budget_is_subset_sum": 0,
-         "equal_efficiency_pair": 0, "pd_nothing_to_decide": 0, "nproj_hist": {}, "sat_hist": {}, "kind_hist": {}, "irresolute_sizes": {}}
+         "equal_efficiency_pair": 0, "pd_nothing_to_decide": 0, "history": 0, "history_multiprofile": 0,
+         "history_first_answer_no_longer_optimal": 0, "history_first_call_on_empty_profile": 0, "near_tie_large": 0,
+         "near_tie_mixed_int_mpq": 0, "near_tie_second_best_within_1e-9": 0, "nproj_hist": {}, "sat_hist": {}, "kind_hist": {}, "irresolute_sizes": {}}
     for c, o in zip(cases, obs):
         if not isinstance(o, dict) or "out" not in o:
             continue
@@ -381,6 +514,18 @@ def stats(cases, obs):
         d["nonempty_init"] += bool(c["init"])
         d["multiprofile"] += bool(c["multi"])
         comp = _completions(c, o)
+        if c.get("late") is not None and comp:
+            d["history"] += 1
+            d["history_multiprofile"] += bool(c["multi"])
+            d["history_first_call_on_empty_profile"] += not c["ballots"]
+            mx0 = max(w for w, _ in comp)
+            d["history_first_answer_no_longer_optimal"] += any(
+                sum((sc[j] for j in W), Fraction(0)) < mx0 for W in o.get("out1", []))
+        if c.get("near") and comp:
+            d["near_tie_large"] += 1
+            d["near_tie_mixed_int_mpq"] += any(x.denominator != 1 for x in cs) and any(x.denominator == 1 for x in cs)
+            ws = sorted({w for w, _ in comp}, reverse=True)
+            d["near_tie_second_best_within_1e-9"] += len(ws) > 1 and ws[0] > 0 and (ws[0] - ws[1]) / ws[0] < Fraction(1, 10 ** 9)
         if comp:
             mx = max(w for w, _ in comp)
             d["tied_optima>=2"] += sum(1 for w, _ in comp if w == mx) >= 2
@@ -459,11 +604,14 @@ def shrink(case):
             c["costs"] = case["costs"][:j] + case["costs"][j + 1:]
             c["order"] = ren(case["order"])
             c["init"] = ren(case["init"])
-            if case["kind"] in ("approval", "ordinal"):
-                c["ballots"] = [ren(b) for b in case["ballots"]]
-            else:
-                c["ballots"] = [{str(int(k) - (int(k) > j)): v for k, v in b.items() if int(k) != j}
-                                for b in case["ballots"]]
+            for key in ("ballots", "late"):
+                if case.get(key) is None:
+                    continue
+                if case["kind"] in ("approval", "ordinal"):
+                    c[key] = [ren(b) for b in case[key]]
+                else:
+                    c[key] = [{str(int(k) - (int(k) > j)): v for k, v in b.items() if int(k) != j}
+                              for b in case[key]]
             if c["solver"] and all(pb.F(x) == 0 for jj, x in enumerate(c["costs"]) if jj not in c["init"]):
                 continue
             yield c
@@ -472,6 +620,11 @@ def shrink(case):
         c = dict(case)
         c["ballots"] = case["ballots"][:v] + case["ballots"][v + 1:]
         yield c
+    for v in range(len(case.get("late") or [])):
+        if len(case["late"]) > 1:
+            c = dict(case)
+            c["late"] = case["late"][:v] + case["late"][v + 1:]
+            yield c
     # empty initial allocation, list profile, sorted insertion order
     if case["init"]:
         c = dict(case)
